@@ -231,7 +231,15 @@ def _gen_asg(rng, malformed):
         if rng.random() < 0.2:
             name = 'svc@' + name
         loads.append([name, rng.choice([None, None, -1, -1, 0, 3, 100])])
-    return {'allocs': allocs, 'entries': entries, 'finds': finds, 'loads': loads}
+    prev = []
+    if allocs and rng.random() < 0.35:
+        # the table of an earlier load (the loader is long-lived: an allocations event reloads the table);
+        # other patterns, among them proids that have no entry at all in the table loaded afterwards
+        for _ in range(rng.randint(1, 4)):
+            pr = rng.choice(PROIDS)
+            prev.append([rng.randrange(len(allocs)), rng.choice([pr + '.*', pr + '.web*', '*@' + pr + '.*', pr + '.' + rng.choice(APPS)]),
+                         rng.choice([0, 1, 5, 50])])
+    return {'allocs': allocs, 'entries': entries, 'finds': finds, 'loads': loads, 'prev': prev}
 
 
 def gen_case(rng, pid, tier):
@@ -302,6 +310,7 @@ def with_ops(case, ops):
             walk(s, path + [i])
     walk(c['tree'], [])
     c['asg'] = {'allocs': list((case.get('asg') or {}).get('allocs', [])),
+                'prev': list((case.get('asg') or {}).get('prev', [])),
                 'entries': [op[1] for op in ops if op[0] == 'entry'],
                 'finds': [op[1] for op in ops if op[0] == 'find'],
                 'loads': [op[1] for op in ops if op[0] == 'load']}
@@ -687,9 +696,17 @@ def _run_assign(asg, run):
         data.append({'partition': '_default', 'name': name, 'rank': 100, 'memory': '10M', 'cpu': '10%',
                      'disk': '10M',
                      'assignments': [{'pattern': e[1], 'priority': e[2]} for e in asg['entries'] if e[0] == i]})
-    backend.data[z.ALLOCATIONS] = data
     ldr = ldr_mod.Loader(backend, 'cell')
     ldr.cell.partitions['_default'] = ldr_mod.scheduler.Partition(label='_default')
+    if asg.get('prev'):
+        # an earlier table was loaded by the same loader: what counts afterwards is the table loaded last
+        backend.data[z.ALLOCATIONS] = [
+            {'partition': '_default', 'name': name, 'rank': 100, 'memory': '10M', 'cpu': '10%', 'disk': '10M',
+             'assignments': [{'pattern': e[1], 'priority': e[2]} for e in asg['prev'] if e[0] == i]}
+            for i, name in enumerate(asg['allocs'])]
+        ldr.load_allocations()
+        run.tags.add('asg-reloaded')
+    backend.data[z.ALLOCATIONS] = data
     ldr.load_allocations()
     root = ldr.cell.partitions['_default'].allocation
     import re as _re
